@@ -49,6 +49,7 @@ def run(rep, idx, tier):
     rep.require("C19.6", 8)
     rep.require("C19.7", 10)
     rep.require("C19.8", 1)
+    rep.require("C19.9", 1)
     rules(rep, idx, fixture=False)
     # positive fixture: the same rules must flag the committed bad example on every run
     fx = Index(os.path.join(os.path.dirname(os.path.dirname(os.path.abspath(__file__))), "fixtures", "c19"))
@@ -56,7 +57,7 @@ def run(rep, idx, tier):
     frep = Report("C19", tier)
     rules(frep, fx, fixture=True)
     fired = {o.rule for o in frep.by_status("violated")}
-    for r in ("C19.1", "C19.2", "C19.3", "C19.4", "C19.6", "C19.8"):
+    for r in ("C19.1", "C19.2", "C19.3", "C19.4", "C19.6", "C19.8", "C19.9", "C19.10"):
         if r in fired:
             rep.ok(r, "sa/fixtures/c19", "positive fixture is flagged", "the rule fires on the committed bad example", nontrivial=False)
         else:
@@ -93,6 +94,176 @@ def rules(rep, idx, fixture):
         optional_members(rep, idx, els)
     joins(rep, idx)
     partial_reducers(rep, idx)
+    shared_state(rep, idx)
+    late_binding(rep, idx)
+
+
+# ---- C19.9 no object shared between calls / instances by accident ------------------------------------------
+MUTABLE_CTORS = {"list", "dict", "set", "defaultdict", "OrderedDict", "bytearray", "deque", "Signal", "Module", "Memory", "MemoryData"}
+IMMUTABLE_CTORS = {"frozenset", "tuple", "range", "int", "str", "bool", "float", "bytes", "object", "property", "staticmethod",
+                   "classmethod", "namedtuple", "TypeVar", "unsigned", "signed"}
+
+
+def _mutability(idx, node, f_or_cls):
+    """'mutable' | 'immutable' | 'unknown' for the value of a default argument / class attribute."""
+    if isinstance(node, (ast.Constant, ast.Name, ast.Attribute, ast.Lambda)):
+        return "immutable"                      # names / attributes: enum members, constants, functions
+    if isinstance(node, ast.UnaryOp):
+        return _mutability(idx, node.operand, f_or_cls)
+    if isinstance(node, ast.Tuple):
+        kinds = {_mutability(idx, e, f_or_cls) for e in node.elts}
+        return "mutable" if "mutable" in kinds else ("unknown" if "unknown" in kinds else "immutable")
+    if isinstance(node, (ast.List, ast.Dict, ast.Set, ast.ListComp, ast.DictComp, ast.SetComp)):
+        return "mutable"
+    if isinstance(node, (ast.BinOp, ast.JoinedStr, ast.Compare, ast.BoolOp)):
+        return "immutable"
+    if isinstance(node, ast.Call):
+        fn = node.func
+        nm = fn.id if isinstance(fn, ast.Name) else (fn.attr if isinstance(fn, ast.Attribute) else None)
+        if nm in MUTABLE_CTORS:
+            return "mutable"
+        if nm in IMMUTABLE_CTORS or (isinstance(fn, ast.Attribute) and nm in ("format", "join", "strip", "lower", "upper")):
+            return "immutable"
+        fir = ir.from_ast(fn, {})
+        mod = getattr(f_or_cls, "module", None)
+        cls = f_or_cls if not hasattr(f_or_cls, "cls") else f_or_cls.cls
+        try:
+            if mod is not None and fir[0] in ('name', 'attr') and idx.resolve_class(fir, mod, cls) is not None:
+                rc = idx.resolve_class(fir, mod, cls)
+                return "immutable" if rc.is_enum() else "mutable"   # an instance of a repository class carries state
+        except Exception:
+            pass
+        return "unknown"
+    return "unknown"
+
+
+def shared_state(rep, idx, rule="C19.9", classes=None):
+    """A mutable object created once -- as a default argument (at definition time) or as a class attribute (at class
+    creation) -- is shared by every call / every instance: state then leaks between components that must be independent."""
+    n = 0
+    wanted = None if classes is None else set(classes)
+
+    def in_scope(cls):
+        return wanted is None or (cls is not None and (cls.qual in wanted or cls.name in wanted or
+                                                        any(cls.qual.startswith(w + ".") for w in wanted)))
+    for f in idx.all_functions():
+        if not in_scope(f.cls):
+            continue
+        a = f.node.args
+        names = [x.arg for x in a.args][len(a.args) - len(a.defaults):] + [x.arg for x, dv in zip(a.kwonlyargs, a.kw_defaults) if dv is not None]
+        dflts = list(a.defaults) + [dv for dv in a.kw_defaults if dv is not None]
+        for pname, dv in zip(names, dflts):
+            n += 1
+            m = _mutability(idx, dv, f)
+            what = f"default of `{pname}` = {ast.unparse(dv)[:40]}"
+            if m == "mutable":
+                rep.bad(rule, f.site, what, "a mutable object evaluated once at definition time: every call that omits the argument shares it, "
+                        "so state leaks from one component / call into the next", line=dv.lineno)
+            elif m == "unknown":
+                rep.unk(rule, f.site, what, "cannot tell whether the default value is mutable")
+    for cls in idx.all_classes():
+        if cls.is_enum() or not in_scope(cls):
+            continue
+        for st in cls.node.body:
+            targets = []
+            if isinstance(st, ast.Assign):
+                targets, val = [t for t in st.targets if isinstance(t, ast.Name)], st.value
+            elif isinstance(st, ast.AnnAssign) and st.value is not None and isinstance(st.target, ast.Name):
+                targets, val = [st.target], st.value
+            for t in targets:
+                if t.id.startswith("__") and t.id.endswith("__"):
+                    continue
+                n += 1
+                m = _mutability(idx, val, cls)
+                what = f"class attribute {cls.qual}.{t.id} = {ast.unparse(val)[:40]}"
+                if m == "mutable":
+                    rep.bad(rule, cls.site, what, "a mutable object created once with the class: all instances share it", line=st.lineno)
+                elif m == "unknown":
+                    rep.unk(rule, cls.site, what, "cannot tell whether the value is mutable")
+    # [obj] * n: n references to one object
+    for f in idx.all_functions():
+        if not in_scope(f.cls):
+            continue
+        for x in ast.walk(f.node):
+            if isinstance(x, ast.BinOp) and isinstance(x.op, ast.Mult):
+                for lst in (x.left, x.right):
+                    if isinstance(lst, (ast.List, ast.Tuple)) and lst.elts:
+                        n += 1
+                        kinds = [_mutability(idx, e, f) for e in lst.elts]
+                        if "mutable" in kinds:
+                            rep.bad(rule, f.site, f"{ast.unparse(x)[:50]}", "sequence repetition copies references: every position holds the "
+                                    "same mutable object", line=x.lineno)
+    rep.ok(rule, "-", "default arguments and class attributes hold no mutable object", f"{n} default(s) / class attribute(s) classified",
+           nontrivial=n > 0)
+
+
+# ---- C19.10 closures created in a loop do not capture the loop variable late ------------------------------------
+def _free_loads(fn):
+    """Names a lambda / nested def reads that it does not bind itself."""
+    bound = {a.arg for a in fn.args.args + fn.args.kwonlyargs + fn.args.posonlyargs}
+    if fn.args.vararg:
+        bound.add(fn.args.vararg.arg)
+    if fn.args.kwarg:
+        bound.add(fn.args.kwarg.arg)
+    body = fn.body if isinstance(fn.body, list) else [fn.body]
+    loads = set()
+    for s in body:
+        for x in ast.walk(s):
+            if isinstance(x, ast.Name):
+                if isinstance(x.ctx, ast.Load):
+                    loads.add(x.id)
+                else:
+                    bound.add(x.id)
+            elif isinstance(x, ast.comprehension):
+                for y in ast.walk(x.target):
+                    if isinstance(y, ast.Name):
+                        bound.add(y.id)
+    # default values are evaluated at definition time: `lambda x=x: ...` is the standard early-binding idiom
+    return loads - bound
+
+
+def late_binding(rep, idx):
+    n = 0
+    for f in idx.all_functions():
+        par = None
+        for loop in ast.walk(f.node):
+            if not isinstance(loop, (ast.For, ast.comprehension)):
+                continue
+            tv = {x.id for x in ast.walk(loop.target) if isinstance(x, ast.Name)}
+            body = loop.body if isinstance(loop, ast.For) else []
+            for s in body:
+                for fn in ast.walk(s):
+                    if not isinstance(fn, (ast.Lambda, ast.FunctionDef)):
+                        continue
+                    captured = _free_loads(fn) & tv
+                    if not captured:
+                        continue
+                    n += 1
+                    if par is None:
+                        par = _parents(f.node)
+                    what = f"closure at line {fn.lineno} reads loop variable(s) {sorted(captured)}"
+                    p = par.get(fn)
+                    immediate = False
+                    if isinstance(fn, ast.Lambda):
+                        # consumed on the spot: key= of sorted/min/max/sort, or called directly, or argument of map/filter inside
+                        # a consuming call
+                        if isinstance(p, ast.keyword) and p.arg == "key":
+                            immediate = True
+                        if isinstance(p, ast.Call) and p.func is fn:
+                            immediate = True
+                    else:
+                        uses = [x for x in ast.walk(loop) if isinstance(x, ast.Name) and x.id == fn.name and isinstance(x.ctx, ast.Load)]
+                        outside = [x for x in ast.walk(f.node) if isinstance(x, ast.Name) and x.id == fn.name and isinstance(x.ctx, ast.Load)
+                                   and not any(x is y for y in uses)]
+                        immediate = bool(uses) and not outside and all(isinstance(par.get(x), ast.Call) and par[x].func is x for x in uses)
+                    if immediate:
+                        rep.ok("C19.10", f.site, what, "used only within the iteration that creates it")
+                    else:
+                        rep.bad("C19.10", f.site, what, "the closure outlives the iteration (stored / returned / passed on): Python binds the "
+                                "variable, not its value, so every such closure sees the loop's last element when it is finally called",
+                                line=fn.lineno)
+    rep.ok("C19.10", "-", "closures created inside loops were checked for late binding of the loop variable", f"{n} capturing closure(s)",
+           nontrivial=False)
 
 
 # ---- C19.8 reducers without an identity over possibly-empty sequences ----------------------------------
